@@ -851,6 +851,39 @@ def orphan_total(chk):
         chk.ok(rule, init.qual, "the constructor formats its operands through a tuple and stores the returned value unchanged: it cannot fail on any value", node=init.node)
 
 
+def handlers_format_lazily(chk):
+    """O1.13: on the failure chain (runner monitors, the supervising coroutine, MetaRunner.run, ServiceRunner.accept and the
+    service sweep) no handler formats the exception it caught eagerly (f-string, %, str(), .format): a payload's exception
+    whose __str__ / __repr__ raises would replace the failure being reported -- logging's lazy arguments swallow that"""
+    prog = chk.program
+    from . import c03
+
+    rule = "O1.13"
+    fns = []
+    for q in (META, SERVICE_RUNNER):
+        for fis in prog.cls(q).methods.values():
+            fns.extend(fis)
+    for c in util.concrete_runners(prog):
+        for q in c.mro:
+            k = prog.classes.get(q)
+            if k is not None:
+                for fis in k.methods.values():
+                    fns.extend(f for f in fis if f not in fns)
+    n = 0
+    ok = True
+    for fi in fns:
+        for h in ast.walk(fi.node):
+            if isinstance(h, ast.ExceptHandler) and h.name:
+                n += 1
+                chk.count()
+                for fmt in c03._eager_formats(ast.Module(body=h.body, type_ignores=[]), {h.name}):
+                    # the message of a NEW exception that is raised from the handler is evaluated before the raise: same hazard
+                    chk.bad(rule, fi.qual, "the handler formats the caught exception eagerly (%s): an exception whose __str__ / __repr__ raises replaces the failure that is being reported, so run() no longer ends with RuntimeError from the original" % util.unparse(fmt)[:70], node=fmt, stmt="eager-format in handler of %s" % fi.name)
+                    ok = False
+    if ok:
+        chk.ok(rule, "<failure chain>", "%d handlers that bind the caught exception: none formats it eagerly" % n)
+
+
 def run(chk):
     chk.facts.update({k: v for k, v in libfacts.cross_read().items() if "trio" in k or "asyncio" in k})
     found = chk.guard("O1.1", "<runners>", monitors_and_outcomes, chk) or {}
@@ -874,3 +907,6 @@ def run(chk):
     chk.guard("O3.1", "<runners>", c03.runner_forwards, chk)
     chk.guard("O3.5", c03.TRIO_RUNNER, c03.send_after_close, chk)
     chk.guard("O3.5", c03.TRIO_RUNNER, c03.channel_writers, chk)
+    chk.guard("O1.13", "<failure chain>", handlers_format_lazily, chk)
+    # the service sweep is itself a payload: when an adopt step fails the sweep must end by raising (shared with C03)
+    chk.guard("O3.7", c03.SERVICE_RUNNER, c03.sweep_rules, chk)
